@@ -186,8 +186,9 @@ def run(repo, res):
                 nroutes += 1
                 key = 'starter creation in %s' % mname
                 locked = holds_lock(c, m)
-                g1 = early_return_guard(c, m, lambda t: 'prepare_thread' in t)
-                g2 = early_return_guard(c, m, lambda t: "'conn'" in t or '"conn"' in t)
+                # both tests must be made under the lock (an unlocked test can be overtaken before the lock is taken)
+                g1 = early_return_guard(c, m, lambda t: 'prepare_thread' in t, need_lock=True)
+                g2 = early_return_guard(c, m, lambda t: "'conn'" in t or '"conn"' in t, need_lock=True)
                 # the handle must be stored under the lock before the thread is started
                 st = stmt_of(c)
                 stored = isinstance(st, ast.Assign) and unparse(st.targets[0]) == 'self.prepare_thread'
@@ -344,7 +345,7 @@ def dominated_by_conn_absent(call, fn):
     return early_return_guard(call, fn, lambda t: 'conn' in t and 'hasattr' in t and not t.startswith('not '))
 
 
-def early_return_guard(node, fn, pred):
+def early_return_guard(node, fn, pred, need_lock=False):
     """Some `if <pred>: return` statement precedes `node` in the same block chain."""
     st = stmt_of(node)
     while st is not None and st is not fn:
@@ -355,7 +356,8 @@ def early_return_guard(node, fn, pred):
                 for s in block:
                     if s is st:
                         break
-                    if isinstance(s, ast.If) and pred(unparse(s.test)) and always_exits(s.body, (ast.Return,)):
+                    if isinstance(s, ast.If) and pred(unparse(s.test)) and always_exits(s.body, (ast.Return,)) \
+                            and (not need_lock or holds_lock(s, fn)):
                         return True
         st = parent if isinstance(parent, ast.stmt) else None
     return False
